@@ -397,3 +397,89 @@ theorem accepted_reads_no_blocked_field (root : CTy) (bl : List String) (t : Top
   | logic l => exact acc_logic root bl true l ty h
 
 end Mp
+
+/-! ### on key paths the validator on the operation IS the key-path validator of `Mp/Cue.lean`
+
+    so everything proved about `validateKeys` / `validate` (C13: `validate_walk` - the loop equals the recursive walk of the schema,
+    `validateSteps_keys`; C15: `blocked_iff`, `offered_coherent`) is a statement about `vTop` on queries that are key paths. -/
+namespace Mp
+
+theorem validateKeys_acc_found (root : CTy) (bl : List String) : ∀ (ks p : List String) (cur : Option (String × String)) (first : Bool) (t io : String),
+    ks ≠ [] → validateKeys root bl ks p cur first = .acc t io → (findValueAtPath root (p ++ ks)).isSome = true := by
+  intro ks
+  induction ks with
+  | nil => intro p cur first t io h; exact absurd rfl h
+  | cons k rest ih =>
+    intro p cur first t io _ h
+    unfold validateKeys at h
+    simp only at h
+    split at h
+    · next r hr => subst h; split at hr <;> (try split at hr) <;> simp at hr
+    · split at h
+      · simp at h
+      · cases hf : findValueAtPath root (p ++ [k]) with
+        | none => simp [hf] at h
+        | some v =>
+          simp only [hf] at h
+          cases hk : kindOf v with
+          | none => simp [hk] at h
+          | some ti =>
+            simp only [hk] at h
+            cases rest with
+            | nil => simp [hf]
+            | cons k2 rest2 =>
+              have := ih (p ++ [k]) (some ti) false t io (by simp) h
+              simpa [List.append_assoc] using this
+
+def identsOf (names : List Bytes) : List PathPart := names.map (fun n => PathPart.ident n false [])
+
+theorem vParts_idents (root : CTy) (bl : List String) : ∀ (names : List Bytes) (strs ks0 : List String),
+    names.map bytesToString = strs.map some →
+    vParts root bl (.keys ks0) (identsOf names) = vParts root bl (.keys (ks0 ++ strs)) [] := by
+  intro names
+  induction names with
+  | nil => intro strs ks0 h; cases strs with
+    | nil => simp [identsOf]
+    | cons s ss => simp at h
+  | cons n ns ih =>
+    intro strs ks0 h
+    cases strs with
+    | nil => simp at h
+    | cons s ss =>
+      simp only [List.map_cons, List.cons.injEq] at h
+      have e : identsOf (n :: ns) = .ident n false [] :: identsOf ns := by simp [identsOf]
+      rw [e]
+      simp only [vParts, h.1]
+      rw [ih ss (ks0 ++ [s]) h.2]
+      have e2 : (ks0 ++ [s]) ++ ss = ks0 ++ s :: ss := by simp
+      rw [e2]
+      simp only [vParts]
+
+/-- **C13 / C15**: a `$` path of keys is validated by the operation model exactly as `validateKeys` validates the keys -/
+theorem vTop_key_path (root : CTy) (bl : List String) (i f m : Bool) (us : Bytes) (names : List Bytes) (strs : List String)
+    (hne : strs ≠ []) (h : names.map bytesToString = strs.map some) :
+    vTop root bl (.path (.mk i true f m (identsOf names) us)) =
+      match validateKeys root bl strs [] none true with
+      | .acc t io => some ([], (t, io))
+      | .rej c => some ([c], ("", ""))
+      | .err => none := by
+  simp only [vTop, vPath, Bool.not_true, Bool.false_and, Bool.false_eq_true, if_false]
+  rw [vParts_idents root bl names strs [] h]
+  simp only [List.nil_append, vParts]
+  cases strs with
+  | nil => exact absurd rfl hne
+  | cons s ss =>
+    unfold finishKeys
+    simp only
+    cases hv : validateKeys root bl (s :: ss) [] none true with
+    | rej c => simp
+    | err => simp
+    | acc t io =>
+      simp only
+      have := validateKeys_acc_found root bl (s :: ss) [] none true t io (by simp) hv
+      simp only [List.nil_append] at this
+      cases hf : findValueAtPath root (s :: ss) with
+      | none => simp [hf] at this
+      | some v => simp
+
+end Mp
